@@ -174,7 +174,7 @@ class Replay:
     def run_lens(self, module, cfg=None, workers=16, simulate=None, timeout=900, limit=None, cache=None):
         """cache: path of a file holding the lens's emitted lines (written on first use) so that
         several replays of one check run (different environments) share one TLC run."""
-        if limit is not None and not simulate:
+        if limit is not None and workers == 16 and not simulate:
             # a limited run takes a PREFIX of TLC's output: with one worker the breadth-first order
             # (hence the prefix) is the same in every run; with 16 it was not, and a clean-tree
             # violation surfaced only now and then (DESIGN.md 0.4)
@@ -282,7 +282,8 @@ def run_many(mode, specs, env=None, parallel=4, chunk=64):
 
     def one(spec):
         rp = Replay(mode, procs=procs_each, env=env, chunk=chunk)
-        rp.run_lens(spec["module"], cfg=spec.get("cfg"), workers=procs_each, limit=spec.get("limit"),
+        rp.run_lens(spec["module"], cfg=spec.get("cfg"), workers=1 if spec.get("limit") else procs_each,
+                    limit=spec.get("limit"),
                     simulate=spec.get("simulate"), timeout=spec.get("timeout", 900))
         return rp
     with ThreadPoolExecutor(parallel) as ex:
